@@ -84,6 +84,7 @@ class Ctx:
         self.defs = []              # definitional axioms (sqrt etc.)
         self.memo = {}              # per-path memo for stubs (function of structural argument)
         self.refine = []            # defining equations of abstracted operations (SQ(t) == t*t ...)
+        self.wrap_obligations = []  # (dtype, condition): symbolic integers stored into narrow integer arrays must fit
         self.relerr = None          # harness option: RelErr float model, unit round-off u (e.g. Fraction(1, 2**53))
         self.abstract_log = False   # harness option: log(x) as a fresh real per distinct argument
         self.abstract_terms = []    # (kind, variable, argument) of operations abstracted WITHOUT refinement
